@@ -85,9 +85,15 @@ Proof.
   eapply keeps_trans; [|apply W]. apply keeps_field; auto.
 Qed.
 
+Lemma keeps_close_socket0 c : keeps c (close_socket c).
+Proof.
+  unfold close_socket. destruct (k_sock c); [|apply keeps_refl].
+  eapply keeps_trans; [apply (keeps_field c (c <| k_sock := false |>)); auto|apply keeps_emit; reflexivity].
+Qed.
+
 Ltac keeps_inst L :=
   first [eapply L with (P := keeps) (ok_item := fun x => is_write x = false) | eapply L with (P := keeps)];
-  try exact keeps_refl; try exact keeps_trans;
+  try exact keeps_refl; try exact keeps_trans; try exact keeps_close_socket0;
   try (intros; apply keeps_send_frame; assumption);
   try (intros; apply keeps_emit; assumption);
   try (intros; apply keeps_field; [reflexivity|cbn; intros Hf; rewrite ?orb_true_r; auto]);
